@@ -635,9 +635,13 @@ class Flow:
 
         def walk(stmts, fors, conds, temps):
             temps = list(temps)
+            conds = list(conds)
             for s in stmts:
                 if s is defnode.stmt:
                     def_stack[0] = (tuple(fors), len(conds))
+                if isinstance(s, ast.If) and len(s.body) == 1 and isinstance(s.body[0], ast.Continue) and not s.orelse and fors:
+                    conds = conds + [(s.test, False)]          # guard clause: the rest of the iteration runs under `not test`
+                    continue
                 if isinstance(s, ast.Assign) and len(s.targets) == 1 and isinstance(s.targets[0], ast.Name) and fors:
                     temps.append((s.targets[0].id, s.value))
                 if isinstance(s, ast.Expr) and isinstance(s.value, ast.Call) and isinstance(s.value.func, ast.Attribute) and \
